@@ -345,7 +345,7 @@ def enumerate_program(dc, sc, res, prog_id, spec, label, stride=1, offset=0, jou
         else:
             res.count('kills_at_sql_gates')
         sc.drop(d)
-        if res.counters.get('violations_raw', 0) > 12:
+        if res.new_violations() > 12:
             all_done = False
             break
     if all_done and stride == 1:
@@ -509,7 +509,7 @@ def open_kill_tier(dc, sc, res, kind, initial, label, stride=1, offset=0):
         res.count('kills_during_open' if not opened else 'kills_during_first_write')
         res.seen('kill_points', ('open', kind, initial, k))
         sc.drop(d)
-        if res.counters.get('violations_raw', 0) > 12:
+        if res.new_violations() > 12:
             break
     if initial != 'absent':
         sc.drop(init)
@@ -979,14 +979,14 @@ def run_shard(tier, seed, shard, nshards, res):
             enumerate_program(dc, sc, res, 'rand-%d-%d-%d' % (seed, shard, i), spec,
                               'c07 random program seed=%d shard=%d i=%d journal=%s' % (seed, shard, i, journal),
                               journal=journal)
-            if res.counters.get('violations_raw', 0) > 12:
+            if res.new_violations() > 12:
                 return
         # tier 1b: kills while the directory is being created / re-opened, one variant per shard
         variants = [(k, ini) for ini in ('absent', 'populated', 'empty') for k in OPEN_KINDS]
         for v in range(shard, len(variants) * (1 if tier == 'quick' else 2), nshards):
             kind, initial = variants[v % len(variants)]
             open_kill_tier(dc, sc, res, kind, initial, 'c07 open-kill kind=%s directory=%s' % (kind, initial))
-            if res.counters.get('violations_raw', 0) > 12:
+            if res.new_violations() > 12:
                 return
         # tier 1c: the COMMIT of a rollback-journal database kept waiting by a reader
         probe.reset()
